@@ -29,6 +29,8 @@ pub(crate) mod c09;
 pub(crate) mod c05;
 #[path = "/verif/harness/d/c11.rs"]
 pub(crate) mod c11;
+#[path = "/verif/harness/d/c20.rs"]
+pub(crate) mod c20;
 
 use vcore::{BatchPlan, Check};
 
@@ -82,6 +84,7 @@ pub(crate) fn verif_main(args: &[String]) -> i32 {
     let c09 = c09::ExportRules;
     let c05 = c05::MalformedUpdates;
     let c11 = c11::RestartingSpeaker;
-    let checks: Vec<&dyn Check> = vec![&c08, &c01, &c10, &c13, &c07, &c16, &c09, &c05, &c11];
+    let c20 = c20::KernelSync;
+    let checks: Vec<&dyn Check> = vec![&c08, &c01, &c10, &c13, &c07, &c16, &c09, &c05, &c11, &c20];
     vcore::main_with(&checks, &plan, args)
 }
